@@ -543,11 +543,23 @@ End Clients.
 (** ** xibc: client genesis + packet genesis *)
 Record gx_packet := { gp_src : bytes; gp_dst : bytes; gp_seq : N; gp_data_len : N }.
 
+Record gx_relayer := {
+  rl_addr_len : N;            (* len(Address) *)
+  rl_bech32 : bool;           (* sdk.AccAddressFromBech32(Address) succeeds (it never does for the empty string) *)
+  rl_chains : list bytes;
+  rl_n_addresses : N
+}.
+
+(** IdentifiedRelayer.Validate (= the checks of RegisterRelayerProposal.ValidateBasic) *)
+Definition relayer_ok (r : gx_relayer) : bool :=
+  negb (rl_addr_len r =? 0) && rl_bech32 r
+  && negb (rl_n_addresses r =? 0) && (rl_n_addresses r =? lenN (rl_chains r)) && forallb identifier_ok (rl_chains r).
+
 Record gx_genesis := {
   gx_clients : list (bytes * any client_state);
   gx_consensus : list (bytes * list (height * any cons_state));
   gx_metadata : list (bytes * list (bytes * N));      (* chain, (key, value length) *)
-  gx_relayers : list N;                               (* length of each relayer's address *)
+  gx_relayers : list gx_relayer;
   gx_native : bytes;
   gx_acks : list gx_packet; gx_commitments : list gx_packet; gx_receipts : list gx_packet; gx_seqs : list gx_packet
 }.
@@ -600,7 +612,8 @@ Definition gx_decodes (g : gx_genesis) : bool :=
   forallb (fun c : bytes * any client_state => negb (is_wrong (snd c))) (gx_clients g)
   && forallb (fun cc : bytes * list (height * any cons_state) => forallb (fun hc : height * any cons_state => negb (is_wrong (snd hc))) (snd cc)) (gx_consensus g).
 
-(** [relayer_check]: whether GenesisState.Validate looks at the relayers (it does not at HEAD). *)
+(** [relayer_check]: whether GenesisState.Validate looks at the relayers (it does since d9df21a; it did not at the
+    pinned commit). *)
 Definition gx_validate_gen (relayer_check : bool) (g : gx_genesis) : outcome unit :=
   if negb (gx_decodes g) then Err else
   types <- gx_validate_clients (gx_clients g) [] ;;
@@ -614,14 +627,15 @@ Definition gx_validate_gen (relayer_check : bool) (g : gx_genesis) : outcome uni
                  | None => Err
                  | Some _ => all_ok (fun kv : bytes * N => if (lenN (fst kv) =? 0) || (snd kv =? 0) then Err else Ok tt) (snd m)
                  end) (gx_metadata g) ;;
-  _ <- (if relayer_check && existsb (fun alen => alen =? 0) (gx_relayers g) then Err else Ok tt) ;;
+  _ <- (if relayer_check && negb (forallb relayer_ok (gx_relayers g)) then Err else Ok tt) ;;
   _ <- (if identifier_ok (gx_native g) then Ok tt else Err) ;;
   _ <- all_ok gx_validate_packet (gx_acks g) ;;
   _ <- all_ok gx_validate_packet (gx_receipts g) ;;
   _ <- all_ok gx_validate_packet (gx_commitments g) ;;
   all_ok gx_validate_seq (gx_seqs g).
 
-Definition gx_validate := gx_validate_gen false.
+Definition gx_validate := gx_validate_gen true.
+Definition gx_validate_old := gx_validate_gen false.
 
 (** client.InitGenesis + packet.InitGenesis.  An empty relayer address reaches
     RelayerStore.Set([]byte(""), ...) and the prefix store panics "key is nil". *)
@@ -631,7 +645,7 @@ Definition gx_init (g : gx_genesis) : outcome unit :=
   _ <- all_ok (fun c : bytes * any client_state => match snd c with AnyVal _ => Ok tt | _ => Panic end) (gx_clients g) ;;
   _ <- all_ok (fun cc : bytes * list (height * any cons_state) =>
                  all_ok (fun hc : height * any cons_state => match snd hc with AnyVal _ => Ok tt | _ => Panic end) (snd cc)) (gx_consensus g) ;;
-  _ <- all_ok (fun alen : N => if alen =? 0 then Panic else Ok tt) (gx_relayers g) ;;
+  _ <- all_ok (fun r : gx_relayer => if rl_addr_len r =? 0 then Panic else Ok tt) (gx_relayers g) ;;
   _ <- all_ok (fun p : gx_packet => if gp_data_len p =? 0 then Panic else Ok tt) (gx_acks g) ;;
   all_ok (fun p : gx_packet => if gp_data_len p =? 0 then Panic else Ok tt) (gx_commitments g).
 
